@@ -18,6 +18,8 @@ strings are hex of their bytes.  For every op the model answer is recomputed wit
   `hdr b t id tag len`=> `bytes bucket id' tag' len' n`   pred (t ≤ b ≤ 63, tag < 2^t, len < 2^63): (id',tag',len') = (id,tag,len)
   `lay b t`           => `b' t'`                   NewUint64MapBuilder(b,t).Layout  pred: layoutOK b' t' ∧ t' = t
   `blay count type`   => `b' t'`                   layout of a feature block        pred: layoutOK b' t' ∧ t' = tagBits[type]
+  `bbits count`       => `bits`                    bucketBitsForCount (float) vs the integer model: exact below 2^29, ±1 above
+  `bbsweep lo hi`     => `[n:bits …]`              change points over [lo,hi): must equal the model's exactly
   `tile x y z`        => `id x' y' z'`             pred (z ≤ 29, x,y < 2^z): (x',y',z') = (x,y,z)
   `tiled id`          => `x y z`
   `ll lat lng`        => `id lat' lng'`            (uint32 bits of the E7 ints)     pred: (lat',lng') = (lat,lng)
@@ -56,8 +58,15 @@ def judge (impl model : String) (pred : Option Bool) (clause : String) : Verdict
   | some false => .propfail clause
   | _ => if impl == model then .ok else .diff model
 
-def tagBitsOf (t : Nat) : Option Nat :=
-  match t with | 0 => some 2 | 1 => some 0 | 2 => some 0 | 3 => some 0 | _ => none
+/-- `bucketBitsForCount` (model) over `[lo, hi)` as change points `n:bits`, like the harness prints them. -/
+def sweep (lo hi : Nat) : String :=
+  let rec go (fuel n last : Nat) (acc : List String) : List String :=
+    match fuel with
+    | 0 => acc.reverse
+    | fuel + 1 =>
+      let b := bucketBitsForCount n
+      if b == last then go fuel (n + 1) last acc else go fuel (n + 1) b (s!"{n}:{b}" :: acc)
+  renderList (go (hi - lo) lo (2 ^ 64) [])
 
 def step (_ : Unit) (op impl : String) : Unit × Verdict :=
   let ans := words impl
@@ -163,18 +172,36 @@ def step (_ : Unit) (op impl : String) : Unit × Verdict :=
           | _ => some false
         judge impl s!"{r64 b'} {r64 t'}" pred "builder_layouts_ok"
       | _, _ => .bad
-    | ["blay", _, tys] =>
-      -- bucketBitsForCount is floating point (outside the model): predicate only
-      match nat? tys with
-      | some ty =>
-        match tagBitsOf ty, ans with
+    | ["blay", cs, tys] =>
+      -- model: builderLayout (bucketBitsForCount count) tagBits[type]; the float code may be one off next to
+      -- powers of two ≥ 2^29 (`bucketBitsClose`), which is accepted; the predicate is `layoutOK` + the table's tag bits
+      match nat? cs, nat? tys with
+      | some cnt, some ty =>
+        match tagBitsOfType ty, ans with
         | some tb, [a, c] =>
           (match u64? a, u64? c with
-            | some ib, some it => if layoutOK ib it && it.toNat == tb then .ok else .propfail "builder_layouts_ok"
+            | some ib, some it =>
+              if !(layoutOK ib it && it.toNat == tb) then .propfail "builder_layouts_ok"
+              else
+                let (mb, mt) := builderLayout (BitVec.ofNat 64 (bucketBitsForCount cnt)) (BitVec.ofNat 64 tb)
+                let close := (List.range 64).any fun g => bucketBitsClose cnt g &&
+                  (builderLayout (BitVec.ofNat 64 g) (BitVec.ofNat 64 tb)) == (ib, it)
+                if close then .ok else .diff s!"{mb.toNat} {mt.toNat}"
             | _, _ => .propfail "builder_layouts_ok")
         | some _, _ => .propfail "builder_layouts_ok"
         | none, _ => .bad
-      | none => .bad
+      | _, _ => .bad
+    | ["bbits", ns] =>
+      match nat? ns, ans with
+      | some n, [g] =>
+        (match nat? g with
+          | some gv => if bucketBitsClose n gv then .ok else .diff (toString (bucketBitsForCount n))
+          | none => .bad)
+      | _, _ => .bad
+    | ["bbsweep", los, his] =>
+      match nat? los, nat? his with
+      | some lo, some hi => if impl == sweep lo hi then .ok else .diff (sweep lo hi)
+      | _, _ => .bad
     | ["tile", xs, ys, zs] =>
       match u64? xs, u64? ys, u64? zs with
       | some x, some y, some z =>
